@@ -91,6 +91,24 @@ void Runner::exec_op(Thread *t, int idx) {
     t->op = -1;
   }
   struct Skip { Runner *r; int i; OpRes &res; ~Skip() { if (!res.ran) r->skipped[(size_t) i] = true; } } skip_guard{ this, idx, res };
+  // happens-before edges implied by the plan: life-cycle ops precede later ops of other threads; a thread's last op on a
+  // handle precedes its destruction.  Reader/writer ops running concurrently get no edge.
+  static char tok_life[64], tok_join[64];
+  struct Hb {
+    Runner *r; Thread *t; int idx; const Op &op;
+    ~Hb() {
+      if (r->tpos.size() < 2 || op.h < 0 || op.h >= 64) return;
+      if (op.kind == OP_NEW || op.kind == OP_START || op.kind == OP_DESTROY) coro_tsan_release(&tok_life[op.h]);
+      bool last = true;
+      for (size_t i = (size_t) idx + 1; i < r->plan.ops.size(); i++)
+        if (r->plan.ops[i].thread == op.thread && r->plan.ops[i].h == op.h) { last = false; break; }
+      if (last) coro_tsan_release(&tok_join[op.h]);
+    }
+  } hb_guard{ this, t, idx, op };
+  if (tpos.size() > 1 && op.h >= 0 && op.h < 64) {
+    coro_tsan_acquire(&tok_life[op.h]);
+    if (op.kind == OP_DESTROY) { /* acquired after the join below */ }
+  }
   HState *h = op.h >= 0 && (size_t) op.h < hs.size() ? &hs[(size_t) op.h] : nullptr;
   void *hp = h ? h->p : nullptr;
   OpCtx &cx = octx[(size_t) t->tid];
@@ -313,6 +331,17 @@ void Runner::exec_op(Thread *t, int idx) {
     }
     case OP_WAIT:
     case OP_STOP: {
+      // multi-thread plans: only reading and writing are documented as safe to overlap; everything else joins first
+      if (tpos.size() > 1 && op.h >= 0 && !join_ready(t)) {
+        t->op = idx;
+        K->park(t, join_ready, -1, K_sleep);
+        t->op = -1;
+        res.t0_ns = K->now_ns;
+        st0 = h ? h->st : LS_NONE;
+        hp = h ? h->p : nullptr;
+        expect_uid = h && h->st == LS_RUNNING ? h->uid : -1;
+      }
+      if (tpos.size() > 1 && op.h >= 0 && op.h < 64) coro_tsan_acquire(&tok_join[op.h]);
       int stop[6] = { (int) op.a, (int) op.b, (int) op.c, (int) op.d, (int) op.e, (int) op.f };
       api_begin(t, idx, op.h, expect_uid);
       r = op.kind == OP_WAIT ? api->wait(hp, (int) op.a) : api->stop(hp, stop);
@@ -346,6 +375,7 @@ void Runner::exec_op(Thread *t, int idx) {
         K->park(t, join_ready, -1, K_sleep);
         t->op = -1;
       }
+      if (tpos.size() > 1 && op.h >= 0 && op.h < 64) coro_tsan_acquire(&tok_join[op.h]);
       res.t0_ns = K->now_ns;
       st0 = h ? h->st : LS_NONE;
       hp = h ? h->p : nullptr;
